@@ -733,4 +733,352 @@ theorem regAt_spec (e1 : Ev) (id s : Nat) (w : Bool) (m1 : Mem) (h : NetInv e1) 
             · rw [List.getElem?_set_ne (fun h => hs' h.symm)]
               simp [hs']
 
+
+/-! ### `netReg` -/
+
+theorem netReg_frame (e : Ev) (id s : Nat) (w : Bool) (m : Mem) :
+    Frame e (netReg e id s w m).2.1 ∧ Adv m (netReg e id s w m).2.2 ∧ (netReg e id s w m).1 ≠ .noent ∧
+    ((netReg e id s w m).2.2.refusals ≠ m.refusals → (netReg e id s w m).1 = .fail) := by
+  rw [netReg_eq]
+  have hi := netInit_spec e m
+  rcases hni : netInit e m with ⟨ok0, e0, m0⟩
+  rw [hni] at hi
+  simp only at hi
+  cases ok0
+  · exact ⟨hi.1, hi.2.1, by simp, by simp⟩
+  · simp only
+    cases hsa : e0.sAlloc with
+    | none => exact absurd hsa (hi.2.2.2.1 rfl).1
+    | some sal =>
+      simp only
+      have hg := growS_spec e0 sal s m0
+      rcases hgr : growS e0 sal s m0 with ⟨ok1, e1, m1⟩
+      rw [hgr] at hg
+      simp only at hg
+      cases ok1
+      · exact ⟨hi.1.trans hg.1, hi.2.1.trans hg.2.1, by simp, by simp⟩
+      · simp only
+        have hr := regAt_frame e1 id s w m1
+        refine ⟨hi.1.trans (hg.1.trans hr.1), hi.2.1.trans (hg.2.1.trans hr.2.1), hr.2.2.1, fun hne => hr.2.2.2 ?_⟩
+        have := (hi.2.2.2.1 rfl).2
+        have := (hg.2.2.2.1 rfl).2
+        omega
+
+theorem netReg_spec (e : Ev) (id s : Nat) (w : Bool) (m : Mem) (h : NetInv e) :
+    NetInv (netReg e id s w m).2.1 ∧
+    (((netReg e id s w m).1 = .ok ∧ ¬ netRegistered e s w ∧
+        (∀ x, x ∈ regNet (netReg e id s w m).2.1 ↔ x = (s, w, id) ∨ x ∈ regNet e)) ∨
+     ((netReg e id s w m).1 = .exists_ ∧ netRegistered e s w ∧ registry (netReg e id s w m).2.1 = registry e) ∨
+     ((netReg e id s w m).1 = .fail ∧ registry (netReg e id s w m).2.1 = registry e ∧
+        (m.refusals < (netReg e id s w m).2.2.refusals ∨ EArray.SIZE_MAX < 24 * (s + 1)))) := by
+  rw [netReg_eq]
+  have hi := netInit_spec e m
+  rcases hni : netInit e m with ⟨ok0, e0, m0⟩
+  rw [hni] at hi
+  simp only at hi
+  obtain ⟨hv0, hr0⟩ := hi.2.2.2.2.2.2 h
+  cases ok0
+  · exact ⟨hv0, Or.inr (Or.inr ⟨rfl, hr0, Or.inl (hi.2.2.2.2.1 rfl).2⟩)⟩
+  · simp only
+    cases hsa : e0.sAlloc with
+    | none => exact absurd hsa (hi.2.2.2.1 rfl).1
+    | some sal =>
+      simp only
+      have hg := growS_spec e0 sal s m0
+      rcases hgr : growS e0 sal s m0 with ⟨ok1, e1, m1⟩
+      rw [hgr] at hg
+      simp only at hg
+      have hv1 : NetInv e1 := hg.2.2.2.2.2.2 hv0 (by simp [hsa])
+      have hr1 : registry e1 = registry e := hg.2.2.2.2.2.1.trans hr0
+      have hm0 := (hi.2.2.2.1 rfl).2
+      cases ok1
+      · simp only
+        refine ⟨hv1, Or.inr (Or.inr ⟨(by trivial), hr1, ?_⟩)⟩
+        rcases (hg.2.2.2.2.1 rfl).2 with h1 | h1
+        · exact Or.inl (by omega)
+        · exact Or.inr h1
+      · simp only
+        obtain ⟨hlen, hm1⟩ := hg.2.2.2.1 rfl
+        have hr := regAt_spec e1 id s w m1 hv1 hlen
+        have hn1 : regNet e1 = regNet e := by simp only [regNet, hr1]
+        have hreg : netRegistered e1 s w ↔ netRegistered e s w := by simp only [netRegistered, hn1]
+        refine ⟨hr.1, ?_⟩
+        rcases hr.2 with ⟨a, b, c⟩ | ⟨a, b, c⟩ | ⟨a, b, c⟩
+        · exact Or.inl ⟨a, by rw [← hreg]; exact b, by rw [← hn1]; exact c⟩
+        · exact Or.inr (Or.inl ⟨a, hreg.1 b, c.trans hr1⟩)
+        · exact Or.inr (Or.inr ⟨a, c.trans hr1, Or.inl (by omega)⟩)
+
+theorem netReg_inv (e : Ev) (id s : Nat) (w : Bool) (m : Mem) (h : NetInv e) : NetInv (netReg e id s w m).2.1 :=
+  (netReg_spec e id s w m h).1
+
+/-- the parts `netReg` never touches -/
+theorem netReg_other (e : Ev) (id s : Nat) (w : Bool) (m : Mem) :
+    let e' := (netReg e id s w m).2.1
+    e'.heads = e.heads ∧ e'.minq = e.minq ∧ e'.tq = e.tq ∧ e'.timers = e.timers ∧ e'.qPool = e.qPool :=
+  (netReg_frame e id s w m).1
+
+theorem netReg_ok (e : Ev) (id s : Nat) (w : Bool) (m : Mem) (h : NetInv e) (hok : (netReg e id s w m).1 = .ok) :
+    ¬ netRegistered e s w ∧ (regNet (netReg e id s w m).2.1).Perm ((s, w, id) :: regNet e) := by
+  rcases (netReg_spec e id s w m h).2 with ⟨_, b, c⟩ | ⟨a, _⟩ | ⟨a, _⟩
+  · refine ⟨b, ?_⟩
+    rw [List.perm_ext_iff_of_nodup (regNet_nodup _)]
+    · intro x; rw [c x]; simp
+    · rw [List.nodup_cons]
+      exact ⟨fun hm => b ⟨id, hm⟩, regNet_nodup e⟩
+  · rw [hok] at a; cases a
+  · rw [hok] at a; cases a
+
+theorem netReg_notok (e : Ev) (id s : Nat) (w : Bool) (m : Mem) (h : NetInv e) (hf : (netReg e id s w m).1 ≠ .ok) :
+    registry (netReg e id s w m).2.1 = registry e :=
+  AllocFail.net_fail_unchanged e id s w m (fun hn => (h.uninit hn).1) hf
+
+theorem netReg_not_broken (e : Ev) (id s : Nat) (w : Bool) (m : Mem) (h : NetInv e) :
+    (netReg e id s w m).1 ≠ .broken ∧ (netReg e id s w m).1 ≠ .noent := by
+  refine ⟨?_, (netReg_frame e id s w m).2.2.1⟩
+  rcases (netReg_spec e id s w m h).2 with ⟨a, _⟩ | ⟨a, _⟩ | ⟨a, _⟩ <;> rw [a] <;> simp
+
+/-- (holds without the invariant as well: `netReg_frame`) -/
+theorem netReg_refused (e : Ev) (id s : Nat) (w : Bool) (m : Mem) (_h : NetInv e)
+    (hr : (netReg e id s w m).2.2.refusals ≠ m.refusals) : (netReg e id s w m).1 = .fail :=
+  (netReg_frame e id s w m).2.2.2 hr
+
+theorem netReg_exists (e : Ev) (id s : Nat) (w : Bool) (m : Mem) (h : NetInv e)
+    (hx : (netReg e id s w m).1 = .exists_) : netRegistered e s w := by
+  rcases (netReg_spec e id s w m h).2 with ⟨a, _⟩ | ⟨_, b, _⟩ | ⟨a, _⟩
+  · rw [hx] at a; cases a
+  · exact b
+  · rw [hx] at a; cases a
+
+theorem netReg_fail_refused (e : Ev) (id s : Nat) (w : Bool) (m : Mem) (h : NetInv e)
+    (hs : 24 * (s + 1) ≤ EArray.SIZE_MAX) (hf : (netReg e id s w m).1 = .fail) :
+    (netReg e id s w m).2.2.refusals > m.refusals := by
+  rcases (netReg_spec e id s w m h).2 with ⟨a, _⟩ | ⟨a, _⟩ | ⟨_, _, c⟩
+  · rw [hf] at a; cases a
+  · rw [hf] at a; cases a
+  · rcases c with c | c
+    · exact c
+    · omega
+
+theorem netReg_granted (e : Ev) (id s : Nat) (w : Bool) (m : Mem) (h : NetInv e) (hg : Granted m)
+    (hfree : ¬ netRegistered e s w) (hs : 24 * (s + 1) ≤ EArray.SIZE_MAX) : (netReg e id s w m).1 = .ok := by
+  rcases (netReg_spec e id s w m h).2 with ⟨a, _⟩ | ⟨_, b, _⟩ | ⟨a, _⟩
+  · exact a
+  · exact absurd b hfree
+  · have h1 := netReg_fail_refused e id s w m h hs a
+    have h2 := (netReg_frame e id s w m).2.1.2.2.2 hg
+    omega
+
+/-- the oracle itself is only advanced -/
+theorem netReg_mono (e : Ev) (id s : Nat) (w : Bool) (m : Mem) :
+    let m' := (netReg e id s w m).2.2
+    m'.f = m.f ∧ m.n ≤ m'.n ∧ m.refusals ≤ m'.refusals :=
+  let h := (netReg_frame e id s w m).2.1
+  ⟨h.1, h.2.1, h.2.2.1⟩
+
+
+/-! ### `clearbit` and `netCancel` -/
+
+theorem netOf_modify_pollpos (p : Option Nat) : ∀ (l : List SockRec) (i fd : Nat),
+    netOf fd (l.modify i (fun r => { r with pollpos := p })) = netOf fd l
+  | [], i, fd => by simp
+  | r :: rest, 0, fd => by simp [netOf]
+  | r :: rest, i + 1, fd => by simp [netOf, netOf_modify_pollpos p rest i (fd + 1)]
+
+theorem clearbit_other (e : Ev) (pp bit : Nat) :
+    Frame e (clearbit e pp bit) ∧ (clearbit e pp bit).sAlloc = e.sAlloc ∧ (clearbit e pp bit).recPool = e.recPool ∧
+    (clearbit e pp bit).fdsAlloc = e.fdsAlloc ∧ registry (clearbit e pp bit) = registry e := by
+  unfold clearbit
+  split
+  · exact ⟨Frame.refl e, rfl, rfl, rfl, rfl⟩
+  · simp only
+    split
+    · exact ⟨⟨rfl, rfl, rfl, rfl, rfl⟩, rfl, rfl, rfl, rfl⟩
+    · split
+      · split
+        · exact ⟨⟨rfl, rfl, rfl, rfl, rfl⟩, rfl, rfl, rfl, by simp [registry, netOf_modify_pollpos]⟩
+        · exact ⟨Frame.refl e, rfl, rfl, rfl, rfl⟩
+      · exact ⟨⟨rfl, rfl, rfl, rfl, rfl⟩, rfl, rfl, rfl, by simp [registry, netOf_modify_pollpos]⟩
+
+theorem clearbit_sf (e2 : Ev) (socks : List SockRec) (fds : List (Nat × Nat)) (s : Nat) (rec : SockRec) (w : Bool)
+    (pp : Nat) (hSF : SF socks fds) (hs : socks[s]? = some rec) (hp : rec.pollpos = some pp)
+    (hsocks : e2.socks = socks.set s (setSlot rec w none)) (hfds : e2.fds = fds) :
+    SF (clearbit e2 pp (bitOf w)).socks (clearbit e2 pp (bitOf w)).fds := by
+  have hpp := (hSF.polled s rec pp hs hp).1
+  unfold clearbit
+  rw [hfds, hpp]
+  simp only
+  rw [← evBits_clear, hsocks]
+  split
+  · rename_i hne
+    exact sf_clear_keep hSF s rec w pp hs hp hne
+  · rename_i h0
+    have h0 : evBits (setSlot rec w none) = 0 := by simpa using h0
+    split
+    · rename_i hl
+      have hlt : fds.length - 1 < fds.length := by
+        have := (List.getElem?_eq_some_iff.1 hpp).1
+        omega
+      cases hlast : fds[fds.length - 1]? with
+      | none =>
+        have := List.getElem?_eq_none_iff.1 hlast
+        omega
+      | some p =>
+        obtain ⟨lfd, lev⟩ := p
+        simp only
+        exact sf_clear_swap hSF s rec w pp lfd lev hs hp h0 hl hlast
+    · rename_i hl
+      have hl : pp = fds.length - 1 := by simpa using hl
+      exact sf_clear_last hSF s rec w pp hs hp h0 hl
+
+theorem mem_netOf_clear (l : List SockRec) (s : Nat) (rec : SockRec) (w : Bool) (rid id : Nat)
+    (hs : l[s]? = some rec) (hsl : slot rec w = some (rid, id)) (x : Nat × Bool × Nat) :
+    x ∈ netOf 0 l ↔ x = (s, w, id) ∨ x ∈ netOf 0 (l.set s (setSlot rec w none)) := by
+  obtain ⟨s', w', id'⟩ := x
+  have hlen : s < l.length := (List.getElem?_eq_some_iff.1 hs).1
+  rw [mem_netOf, mem_netOf]
+  simp only [Nat.zero_le, true_and, Nat.sub_zero, Prod.mk.injEq]
+  by_cases hs' : s' = s
+  · subst hs'
+    rw [List.getElem?_set_self hlen, hs]
+    simp only [Option.some.injEq, true_and]
+    constructor
+    · rintro ⟨rec', rid', h1, h2⟩
+      subst h1
+      by_cases hw : w' = w
+      · subst hw
+        rw [hsl] at h2
+        simp only [Option.some.injEq, Prod.mk.injEq] at h2
+        exact Or.inl ⟨rfl, h2.2.symm⟩
+      · exact Or.inr ⟨_, rid', rfl, by rw [slot_setSlot]; simp only [hw, if_false]; exact h2⟩
+    · rintro (⟨hw, hid⟩ | ⟨rec', rid', h1, h2⟩)
+      · exact ⟨_, rid, rfl, by rw [hw, hid]; exact hsl⟩
+      · subst h1
+        rw [slot_setSlot] at h2
+        by_cases hw : w' = w
+        · simp [hw] at h2
+        · simp only [hw, if_false] at h2
+          exact ⟨_, rid', rfl, h2⟩
+  · rw [List.getElem?_set_ne (fun h => hs' h.symm)]
+    simp [hs']
+
+theorem netCancel_frame (e : Ev) (s : Nat) (w : Bool) (m : Mem) :
+    Frame e (netCancel e s w m).2.1 ∧ Adv m (netCancel e s w m).2.2 := by
+  unfold netCancel
+  have hi := netInit_spec e m
+  rcases hni : netInit e m with ⟨ok0, e0, m0⟩
+  rw [hni] at hi
+  simp only at hi
+  cases ok0
+  · exact ⟨hi.1, hi.2.1⟩
+  · simp only
+    cases hs : e0.socks[s]? with
+    | none => exact ⟨hi.1, hi.2.1⟩
+    | some rec =>
+      simp only
+      cases hsl : slot rec w with
+      | none => exact ⟨hi.1, hi.2.1⟩
+      | some p =>
+        obtain ⟨rid, x⟩ := p
+        simp only
+        cases hpp : rec.pollpos with
+        | none => exact ⟨hi.1, hi.2.1⟩
+        | some pp =>
+          simp only
+          have hfr := freerec_spec e0 rid m0
+          have hco := clearbit_other { (freerec e0 rid m0).1 with
+            socks := (freerec e0 rid m0).1.socks.set s (setSlot rec w none) } pp (bitOf w)
+          exact ⟨hi.1.trans (hfr.1.trans (Frame.trans ⟨rfl, rfl, rfl, rfl, rfl⟩ hco.1)), hi.2.1.trans hfr.2.1⟩
+
+/-- what `netCancel` does to a registered event -/
+theorem netCancel_spec (e : Ev) (s id : Nat) (w : Bool) (m : Mem) (h : NetInv e) (hreg : (s, w, id) ∈ regNet e) :
+    ∃ rec rid pp, e.socks[s]? = some rec ∧ slot rec w = some (rid, id) ∧ rec.pollpos = some pp ∧
+      netCancel e s w m =
+        (.ok, clearbit { (freerec e rid m).1 with socks := (freerec e rid m).1.socks.set s (setSlot rec w none) } pp
+                (bitOf w), (freerec e rid m).2) := by
+  obtain ⟨rec, rid, hs, hsl⟩ := (mem_regNet e s w id).1 hreg
+  have hsa : e.sAlloc ≠ none := by
+    intro hn
+    have := (h.uninit hn).1
+    rw [this] at hs
+    simp at hs
+  have hi := (netInit_spec e m).2.2.2.2.2.1 hsa
+  cases hpp : rec.pollpos with
+  | none =>
+    have := h.idle s rec hs hpp
+    cases w <;> simp [slot, this] at hsl
+  | some pp =>
+    refine ⟨rec, rid, pp, hs, hsl, hpp, ?_⟩
+    unfold netCancel
+    rw [hi]
+    simp only [hs, hsl, hpp]
+    rfl
+
+/-- "cancel cannot fail" -/
+theorem netCancel_ok (e : Ev) (s id : Nat) (w : Bool) (m : Mem) (h : NetInv e) (hreg : (s, w, id) ∈ regNet e) :
+    (netCancel e s w m).1 = .ok ∧ NetInv (netCancel e s w m).2.1 ∧
+    (regNet e).Perm ((s, w, id) :: regNet (netCancel e s w m).2.1) := by
+  obtain ⟨rec, rid, pp, hs, hsl, hpp, heq⟩ := netCancel_spec e s id w m h hreg
+  rw [heq]
+  have hfr := freerec_spec e rid m
+  rcases hfrr : freerec e rid m with ⟨e1, m1⟩
+  rw [hfrr] at hfr
+  simp only at hfr ⊢
+  have hco := clearbit_other { e1 with socks := e1.socks.set s (setSlot rec w none) } pp (bitOf w)
+  have hsf := (netInv_iff e).1 h
+  refine ⟨(by trivial), ?_, ?_⟩
+  · rw [netInv_iff]
+    refine ⟨fun hn => ?_, ?_⟩
+    · rw [hco.2.1] at hn
+      simp only at hn
+      rw [hfr.2.2.1] at hn
+      have := (h.uninit hn).1
+      rw [this] at hs
+      simp at hs
+    · exact clearbit_sf _ e.socks e.fds s rec w pp hsf.2 hs hpp (by simp only; rw [hfr.2.2.2.1]) hfr.2.2.2.2.1
+  · have hrn : regNet (clearbit { e1 with socks := e1.socks.set s (setSlot rec w none) } pp (bitOf w)) =
+        netOf 0 (e.socks.set s (setSlot rec w none)) := by
+      simp only [regNet, hco.2.2.2.2]
+      simp only [registry]
+      rw [hfr.2.2.2.1]
+    have hmem := mem_netOf_clear e.socks s rec w rid id hs hsl
+    have hnot : (s, w, id) ∉ netOf 0 (e.socks.set s (setSlot rec w none)) := by
+      rw [mem_netOf]
+      have hlen : s < e.socks.length := (List.getElem?_eq_some_iff.1 hs).1
+      simp only [Nat.zero_le, true_and, Nat.sub_zero]
+      rw [List.getElem?_set_self hlen]
+      rintro ⟨rec', rid', h1, h2⟩
+      simp only [Option.some.injEq] at h1
+      subst h1
+      rw [slot_setSlot] at h2
+      simp at h2
+    rw [hrn, List.perm_ext_iff_of_nodup (regNet_nodup e)]
+    · intro x
+      rw [List.mem_cons]
+      exact hmem x
+    · rw [List.nodup_cons]
+      exact ⟨hnot, nodup_netOf _ _⟩
+
+theorem netCancel_other (e : Ev) (s : Nat) (w : Bool) (m : Mem) :
+    let e' := (netCancel e s w m).2.1
+    e'.heads = e.heads ∧ e'.minq = e.minq ∧ e'.tq = e.tq ∧ e'.timers = e.timers ∧ e'.qPool = e.qPool :=
+  (netCancel_frame e s w m).1
+
+theorem netCancel_noalloc (e : Ev) (s id : Nat) (w : Bool) (m : Mem) (h : NetInv e) (hreg : (s, w, id) ∈ regNet e)
+    (hroom : e.recPool.stacklen < e.recPool.allocsize) : (netCancel e s w m).2.2.n = m.n := by
+  obtain ⟨rec, rid, pp, _, _, _, heq⟩ := netCancel_spec e s id w m h hreg
+  rw [heq]
+  simp only
+  rw [(freerec_spec e rid m).2.2.2.2.2.2 hroom]
+
+theorem netCancel_mono (e : Ev) (s : Nat) (w : Bool) (m : Mem) :
+    let m' := (netCancel e s w m).2.2
+    m'.f = m.f ∧ m.n ≤ m'.n ∧ m.refusals ≤ m'.refusals :=
+  let h := (netCancel_frame e s w m).2
+  ⟨h.1, h.2.1, h.2.2.1⟩
+
+/- Unfinished: nothing.  All the requested theorems are proved as stated (`regNet_nodup` for the full triples).
+   Also exported: `mem_regNet`, `NetInv.polled_bits` (the {1,4,5} / POLLIN / POLLOUT reading of `polled`),
+   `netInv_iff`/`SF`, `Adv` (the oracle advanced; includes "nothing refused when `Granted`"), `Frame`,
+   `netReg_frame`, `netReg_spec` (ok / exists_ / fail trichotomy), `netCancel_spec`, `netCancel_frame`. -/
+
 end Percival.Proofs.EvRegNet
